@@ -310,14 +310,33 @@ func (wf *Workflow) runProcs(procs map[string]WorkflowProcess) {
 		wf.Fail("Workflow not ready to run, due to previously reported errors, so exiting.")
 	}
 
+	// All processes except the driver are run in their own go-routines, and
+	// are waited for before returning
+	var wg sync.WaitGroup
+	startProc := func(proc WorkflowProcess) {
+		wg.Add(1)
+		go func() {
+			defer wg.Done()
+			proc.Run()
+		}()
+	}
 	for _, proc := range procs {
+		if proc == wf.driver {
+			continue // The driver is run (once) in the main go-routine below
+		}
 		Debug.Printf(wf.name+": Starting process (%s) in new go-routine", proc.Name())
-		go proc.Run()
+		startProc(proc)
+	}
+	// If a process without out-ports has replaced the sink as driver, the
+	// sink still has to drain the out-ports that were connected to it
+	if wf.driver != WorkflowProcess(wf.sink) && (wf.sink.in().Ready() || wf.sink.paramIn().Ready()) {
+		startProc(wf.sink)
 	}
 
 	Debug.Printf("%s: Starting driver process (%s) in main go-routine", wf.name, wf.driver.Name())
 	wf.Auditf("Starting workflow (Writing log to %s)", wf.logFile)
 	wf.driver.Run()
+	wg.Wait()
 	wf.Auditf("Finished workflow (Log written to %s)", wf.logFile)
 }
 
